@@ -417,3 +417,28 @@ class MaildirWorld(World):
         if self.own_root:
             with fsjail.unjailed():
                 shutil.rmtree(self.root, ignore_errors=True)
+
+
+class scratch_parent:
+    """Context manager used by a check's run(): every scratch root created
+    by this process *and its forked workers* lives under one directory that is
+    removed at the end, whatever the workers leaked."""
+
+    def __enter__(self):
+        import tempfile
+        base = os.environ.get('VERIF_SCRATCH')
+        if not base:
+            base = '/dev/shm' if os.path.isdir('/dev/shm') else None
+        self.saved = os.environ.get('VERIF_SCRATCH')
+        self.path = tempfile.mkdtemp(prefix=f'verifrun-{os.getpid()}-',
+                                     dir=base)
+        os.environ['VERIF_SCRATCH'] = self.path
+        return self.path
+
+    def __exit__(self, *a):
+        import shutil
+        if self.saved is None:
+            os.environ.pop('VERIF_SCRATCH', None)
+        else:
+            os.environ['VERIF_SCRATCH'] = self.saved
+        shutil.rmtree(self.path, ignore_errors=True)
